@@ -17,7 +17,7 @@ var Shapes = []Shape{
 	{"findmode-prefix", []string{`(?i)aab`, `(?i)abab`, `(?i)aaab`, `(?i)aba!`, `(?i)a-a-b`, `abc.*`, `(?i)abc\d`, `abc|abd|xyz`, `abab`, `aab`, `abcab`, `éa`, `ab|cd`, `abc|abd`, `(?i)ab|cd`, `aa|ab|ba`}},
 	{"findmode-set", []string{`[ab]c`, `.b[cd]`, `..ab`, `[^a]b`, `[a-c]x`, `\d[ab]`, `[ab][cd][ab]`, `a[bc]d`, `\w\d`, `(?i)[ab]c`}},
 	{"findmode-literalafterloop", []string{`\w+@x`, `[a-c]*:d`, `a*b`, `[ab]*c`, `\d*x`, `[ab]+cd`}},
-	{"autoatomic", []string{`a*b`, `a*a`, `a*[^a]`, `a*[ab]`, `[ab]*c`, `[ab]*b`, `a*$`, `a*\b`, `\w*\b`, `\d+\b`, `a*b*c`, `a*b*a`, `a*?b`, `a*?b*`,
+	{"autoatomic", []string{`[ab]*([bc]*)d\1$`, `[ab]*([bc]*)\1c`, `a*([ab]*)c\1$`, `[ab]+([bc]*)d\1$`, `[ab]*?([bc]*)d\1$`, `\w*(\d*)-\1$`, `[^a]*([ab]*)c\1$`, `a*b`, `a*a`, `a*[^a]`, `a*[ab]`, `[ab]*c`, `[ab]*b`, `a*$`, `a*\b`, `\w*\b`, `\d+\b`, `a*b*c`, `a*b*a`, `a*?b`, `a*?b*`,
 		`(a*b)*`, `(?:a+[b])*`, `(?:a+[ab])*`, `x(?:a*|b)c`, `a*(?=b)`, `a*(?<=b)c`, `(?i)a*B`, `a+b+`, `\w+\d`, `\d+\w`, `[ab]+[bc]`, `a?b`, `a?a`, `(?:ab)*a`, `(?:ab)*c`}},
 	{"endbacktrack", []string{`(?:a[ab]?){2}`, `(ab|abc){2}`, `(?:ab*){2}`, `(?>(?:a[ab]?){2})c`, `(?=(?:a[ab]*){2})\w+`, `(?:a[ab]?){2,}?`, `(?!(?:a[ab]?){2})a+`, `(\w+\d*){2}`, `(?:a[ab]?){3}`, `ab*`, `a(?:b|c*)`, `(?:ab*)*`, `(ab*?)+?`, `(?=ab*)a`, `(?>(?>a*))`, `(?(a)b*|c*)`, `(?:a|b*)`, `(?>a|ab)c`, `(?>ab|a)b`}},
 	{"alternation", []string{`abc|abd`, `ab|ac|ad|b`, `a|b|cd|e`, `\w1|\w2|\d3`, `(?>hi|there|hello)x`, `(?>a||b)`, `ab|cd||ef`, `ab|(?!)|cd`, `[ab]x|[ab]y`,
